@@ -636,6 +636,9 @@ func (e *Exec) newGoroutine(fn FuncV, args []Value) *Goroutine {
 	g := &Goroutine{id: len(e.gs)}
 	e.gs = append(e.gs, g)
 	e.pushCall(g, fn, args, nil, nil)
+	if len(g.stack) == 0 {
+		g.state = GDone // a native function: it has already run
+	}
 	return g
 }
 
@@ -1110,7 +1113,7 @@ func (e *Exec) callee(fr *Frame, c *ssa.CallCommon) (FuncV, []Value) {
 		if iv.t == nil {
 			panic(mkEnd("panic", "method call on nil interface " + c.Method.Name()))
 		}
-		if iv.t == opaqueErrType {
+		if _, isOpaque := iv.v.(OpaqueV); isOpaque || iv.t == opaqueErrType {
 			sig := c.Method.Type().(*types.Signature)
 			return FuncV{native: func(e *Exec, g *Goroutine, args []Value) Value {
 				res := sig.Results()
